@@ -544,6 +544,8 @@ func init() {
 					us = append(us, c11Race(d, scen, rb))
 				}
 			}
+			// the transport the concurrent requests of one connection share: whole messages only
+			us = append(us, c17StreamWriters(2))
 			reps := 150
 			if tier == "thorough" {
 				reps = 2000
